@@ -106,8 +106,14 @@ def main(argv=None):
     outs = parallel.run_all(prop, shards, tier, seed, workroot, TIMEOUT[tier])
     r = Result()
     shard_walls = []
+    variants = {}
     for o, sh in zip(outs, shards):
+        kind = next((k for k in ('optimised_interpreter', 'decorated_workbooks', 'host_settings') if isinstance(sh, dict) and sh.get(k)), 'plain')
+        v_ = variants.setdefault(kind, {'shards': 0, 'evaluations': 0, 'finished': 0})
+        v_['shards'] += 1
         if o['status'] == 'ok':
+            v_['finished'] += 1
+            v_['evaluations'] += o['result'].get('evaluations', 0)
             r.merge_json(o['result'])
             # remember per-shard environment for replays
             for v in o['result']['violations']:
@@ -131,6 +137,12 @@ def main(argv=None):
             if r.counters.get(name, 0) < n:
                 r.inconcl(f'monitor/counter {name} saw {r.counters.get(name, 0)} events (floor {n})')
     extra['shards'] = len(shards)
+    # what was observed in which kind of process (section 3.3a): a variant that was planned and observed nothing is no observation
+    extra['process_variants'] = variants
+    if not a.replay:
+        for kind, v_ in variants.items():
+            if kind != 'plain' and v_['finished'] and not v_['evaluations']:
+                r.inconcl(f'the {kind} shards finished without a single evaluation')
     extra['shard_wall_s'] = shard_walls[:64]
 
     wall = time.time() - t0
